@@ -145,7 +145,7 @@ fn main() {
             let thorough = args[3] == "thorough";
             let seed: u64 = args[4].parse().unwrap_or(0);
             let mut rng = util::Rng::new(seed ^ 0x5EA7C4);
-            let res = match prop.as_str() {
+            let res = std::panic::catch_unwind(std::panic::AssertUnwindSafe(|| match prop.as_str() {
                 "C13" => Some(c13::search_c13(&mut rng, thorough)),
                 "C01" => Some(cellsearch::search_c01(&mut rng, thorough)),
                 "C06" => Some(cellsearch::search_c06(&mut rng, thorough)),
@@ -160,6 +160,22 @@ fn main() {
                 "C18" => Some(geosearch::search_c18(&mut rng, thorough)),
                 "C19" => Some(geosearch::search_c19(&mut rng, thorough)),
                 _ => search::run(prop, &mut rng, thorough),
+            }));
+            let res = match res {
+                Ok(r) => r,
+                Err(_) => {
+                    // the search itself was aborted: a library call panicked outside a guarded section, or returned an
+                    // error where the property requires a result and the search unwrapped it
+                    let mut r = search::SearchResult::default();
+                    r.rule = "search aborted".into();
+                    let last = search::api::last();
+                    if last.is_empty() {
+                        r.viol("abort-unknown", "the search was aborted by a panic in a library call (input not recorded)".into());
+                    } else {
+                        r.viol("abort", format!("{} panicked or failed where the property requires a result (the search could not continue)", last));
+                    }
+                    Some(r)
+                }
             };
             match res {
                 Some(r) => println!("{}", r.to_json()),
